@@ -321,6 +321,73 @@ func c14Consumed(p *Prog, r *Report) {
 					}
 				}
 			}
+			// the list wrapped into a small carrier struct: old := u.batchOf(u.core.DeleteOld(..)); old.run(ctx)
+			if listObj == nil {
+				var ctor *ast.CallExpr
+				field := ""
+				for _, c := range callsIn(f.Nodes[s.Node].Ast, false) {
+					for i, a := range c.Args {
+						if ast.Unparen(a) == ast.Expr(s.Call) {
+							if fld := p.carrierCtor(fi.Pkg, c, i); fld != "" {
+								ctor, field = c, fld
+							}
+						}
+					}
+				}
+				if ctor != nil {
+					usesCarrier := func(c *ast.CallExpr, isCarrier func(ast.Expr) bool) bool {
+						callee := p.staticCallee(fi.Pkg, c)
+						if callee == nil {
+							return false
+						}
+						for i, a := range argExprs(c, callee) {
+							if isCarrier(a) && toCleaner.ParamField(callee, i, field) {
+								return true
+							}
+						}
+						return false
+					}
+					// used on the spot: u.batchOf(list).run(ctx)
+					onSpot := false
+					for _, c := range callsIn(f.Nodes[s.Node].Ast, false) {
+						if usesCarrier(c, func(a ast.Expr) bool { return ast.Unparen(a) == ast.Expr(ctor) }) {
+							onSpot = true
+						}
+					}
+					if onSpot {
+						r.Hold("C14.a", cons, p.pos(s.Call), "list wrapped into a carrier that hands it to the cleaner in the same statement")
+						continue
+					}
+					if as, ok := f.Nodes[s.Node].Ast.(*ast.AssignStmt); ok && len(as.Lhs) == 1 && len(as.Rhs) == 1 && ast.Unparen(as.Rhs[0]) == ast.Expr(ctor) {
+						if carrier := objOf(info, as.Lhs[0]); carrier != nil {
+							sinks := setOf(f.Match(func(gn *GNode) bool {
+								for _, c := range callsIn(gn.Ast, false) {
+									if usesCarrier(c, func(a ast.Expr) bool { return objOf(info, a) == carrier }) {
+										return true
+									}
+								}
+								return false
+							}))
+							var start0 []int
+							for _, sid := range f.succsOf(s.Node) {
+								if !sinks[sid] {
+									start0 = append(start0, sid)
+								}
+							}
+							reach := f.Reach(start0, func(gn *GNode) bool { return sinks[gn.ID] }, nil)
+							bad := ""
+							for _, e := range f.Exits() {
+								if reach[e] {
+									bad = p.pos(f.Nodes[e].Ast)
+								}
+							}
+							r.Check(bad == "" && len(sinks) > 0, "C14.a", cons, p.pos(s.Call), "the returned list, wrapped into "+carrier.Name()+"."+field+", reaches the cleaner on every path",
+								"the list of versions to delete returned by "+name+" (kept in "+carrier.Name()+"."+field+") does not reach DeleteFiles(Async) on the path to "+bad+": their contents stay on disk forever")
+							continue
+						}
+					}
+				}
+			}
 			if listObj == nil {
 				// passed directly?
 				direct := false
